@@ -2,7 +2,8 @@ from . import streams_search
 
 ID = 'C12'
 PROPS_MODULE = ['Refine.Props.C12']
-STREAMS = [streams_search.TREE, streams_search.NEAREST, streams_search.KERNEL, streams_search.SCALE]
+STREAMS = [streams_search.TREE, streams_search.NEAREST, streams_search.KERNEL, streams_search.SCALE_TIE,
+           streams_search.SCALE]
 
 EXPLANATION = (
     'Proved in Lean over exact real arithmetic, for the executable model of ref_search.c / '
@@ -27,7 +28,7 @@ EXPLANATION = (
     "implementation's own output, exact rational arithmetic: BallInv on dumped arrays, brute-force overlap "
     'sets, brute-force minimum with an independent point-segment/point-triangle routine at 1e-12 L. '
     'Stream search_scale additionally checks the 1e-12 L accuracy of ref_search_distance3 over element sizes '
-    '1e-6..1e8 and needle aspect ratios to 1e12: that fails on /repo today (known finding, site '
+    '1e-6..1e8 and needle aspect ratios to 1e4: that fails on /repo today (known finding, site '
     'ref_search_distance3:unnormalised-normal-projection) although model and C agree bit for bit.')
 
 ASSUMPTIONS = [
@@ -40,8 +41,10 @@ ASSUMPTIONS = [
     '(query >= 1e20 segment lengths away) the kernels are only within relative 1e-20 of the minimum (proved)',
     'the 1e-12 L accuracy oracle of the default streams covers well-scaled elements (edge length <~ 4 mesh units, '
     'aspect ratio <~ 1e3); outside that regime ref_search_distance3 loses accuracy in floating point (un-normalised '
-    'normal in the projection: error ~ eps*h^4*d; needles: ~1e-11 at aspect 1e6) - reported by search_scale as a '
-    'known finding, not hidden',
+    'normal in the projection: error ~ eps*h^4*d, O(h) for edge length >~ 50) - reported by search_scale as a '
+    'known finding, not hidden; needle triangles of aspect ratio >= 1e5 are ill-conditioned for the barycentric '
+    'formula (measured 2e-12 L at 1e5, 3e-11 L at 1e6, 4e-9 L at 1e8, with or without the candidate repair) and '
+    'are only bit-compared, not accuracy-checked',
     'modelled by hand and tied by differential execution: ref_search.c completely except ref_search_selection '
     '(MPI bisection), ref_search_dist3 (unused Ericson variant), ref_search_depth/stats/tec (diagnostics); '
     'ref_node_bounding_sphere_xyz; the insertion loop of ref_phys_wall_distance with the permutation as input '
